@@ -70,3 +70,14 @@ package builtins
 //@ props C01 C03
 //@ safety makeslice makemap makechan
 //@ assume[args.wf] ctx != nil && forall(k, 0, len(args), args[k] != nil && ref(args[k]) != nil)
+
+// C19: the json codec marshals the object itself, as json.marshal does (see modules/json; KF-48 fixed).
+//@ func encodeJSON
+//@ props C19
+//@ callpre[C19.json.agree] Marshal: arg0 == any(obj)
+//@ scan[C19.json.functions.codec] C19 extcalls encoding/json.*,-encoding/json.Unmarshal,-encoding/json.Marshal,-encoding/json.init:
+
+// C11: the global builtins are free-standing: none is owned by a module (see modules/os).
+//@ func Builtins
+//@ props C11
+//@ ensures[C11.builtins.unowned] forallU(k, string, haskey(result, k) ==> typeof(result[k]) == *object.Builtin && ref(result[k]) != nil && result[k].(*object.Builtin).module == nil)
